@@ -136,6 +136,8 @@ def r15_descriptor_write(ctx, rule='R15'):
     if hd is None:
         raise AnalysisError('FileDumper.handle_datapackage not found')
     hd0, hd = hd, ctx.N(hd)      # helpers inlined, module constants folded (a named descriptor file name is the same name)
+    from sa.normalize import file_idioms
+    file_idioms(ctx, hd)         # `with ... as f` closes f after its block; json.dumps + f.write is json.dump
     preds = {'DUMP': ext(ctx, 'json.dump'),
              'CLOSE': lambda n: isinstance(n, ast.Call) and isinstance(n.func, ast.Attribute) and n.func.attr == 'close',
              'WRITE_OUT': lambda n: isinstance(n, ast.Call) and isinstance(n.func, ast.Attribute)
